@@ -400,6 +400,8 @@ def run(tier, seed, model):
                                                   "what": f"script #{i}: {why}"})
                     if len(camp.model_mismatches) >= 3:
                         break
+        if not camp.oracle_failures:
+            whole_tool(camp, rng, 60 if tier == "quick" else 1500)
     finally:
         shutil.rmtree(tmp, ignore_errors=True)
     camp.rule = ("random scripts of 1..13 commands (key incl. chords, type, move, click, mdown, mup, drag, pause/sleep, capture, expect) "
@@ -407,12 +409,119 @@ def run(tier, seed, model):
                  "VNCDoCLIClient through the real handshake under task.Clock against a server that commits two-rectangle updates at "
                  "0..29 scheduled times (solicited or not, early or late); judged: per-command message order, no byte before the "
                  "previous command finished, pause >= d/warp, delay between commands, capture/expect completion at the right "
-                 "commit, close last and once; timed traces compared with the Coq interpreter; non-trivial = script")
+                 "commit, close last and once; timed traces compared with the Coq interpreter; non-trivial = script; then the real "
+                 "build_tool (verbosity 0..2, delay, warp) against servers whose desktop name is ASCII / UTF-8 / Latin-1 / empty / "
+                 "arbitrary bytes: the script's bytes in order, then the close, at the expected virtual time")
     return camp
+
+
+NAMES = [b"QEMU (vm1)", b"", "B\u00fcro-PC".encode(), "B\u00fcro-PC".encode("latin-1"), b"\xff\xfe\x00x", b"\x80", "\u4e2d\u6587".encode("utf-16-le"),
+         b"a" * 300, b"%s %d {0}"]
+
+
+def whole_tool(camp, rng, n):
+    """vncdo as build_tool assembles it (log_connected, the compiled script, close_connection), on a virtual clock"""
+    import contextlib
+    import optparse
+    import socket
+    from c04 import debug_logging
+    saved_connect = command.factory_connect
+    command.factory_connect = lambda *a, **kw: None           # the protocol is wired to a string transport by hand
+    try:
+        for i in range(n):
+            toks, exp, wait = [], [], Fraction(0)
+            delay = rng.choice([0, 0, 20, 250])
+            warp = rng.choice([0.5, 1.0, 2.0, 4.0])
+            spec = clientops.Spec(W, H, False, False)
+            ncmd = rng.randrange(1, 6)
+            for j in range(ncmd):
+                r = rng.random()
+                if r < 0.4:
+                    k = rng.choice(["a", "Z", "enter", "ctrl-c", "f1"])
+                    toks += ["key", k]
+                    exp += spec.expected(("keyPress", k))
+                elif r < 0.6:
+                    x, y = rng.randrange(0, 50), rng.randrange(0, 50)
+                    toks += ["move", str(x), str(y)]
+                    exp += spec.expected(("mouseMove", x, y))
+                elif r < 0.75:
+                    toks += ["click", "1"]
+                    exp += spec.expected(("mousePress", 1))
+                else:
+                    d = rng.choice(["0.5", "1", "0.25", "2"])
+                    toks += [rng.choice(["pause", "sleep"]), d]
+                    wait += Fraction(d) / Fraction(warp)
+                if delay and j < ncmd - 1:
+                    wait += Fraction(delay, 1000)
+            verbose = rng.choice([0, 0, 1, 2])
+            name = rng.choice(NAMES)
+            clock = Clock()
+            vclient.reactor = clock
+            command.reactor = clock
+            log = []
+            options = optparse.Values(dict(verbose=verbose, delay=delay, warp=warp, incremental_refreshes=False, host="127.0.0.1",
+                                           port=5900, address_family=socket.AF_INET))
+            why = None
+            try:
+                with (debug_logging() if verbose == 2 else contextlib.nullcontext()):
+                    f = command.build_tool(options, list(toks))
+                    failures = []
+                    f.deferred.addErrback(failures.append)
+                    c = f.buildProtocol(None)
+                    tr = TimedTransport(clock, log)
+                    c.makeConnection(tr)
+                    c.dataReceived(b"RFB 003.008\n\x01\x01\0\0\0\0")
+                    start = len(log)
+                    c.dataReceived(struct.pack("!HH16sI", W, H, bytes([32, 24, 0, 1, 0, 255, 0, 255, 0, 255, 0, 8, 16, 0, 0, 0]), len(name)) + name)
+                    guard = 0
+                    while clock.getDelayedCalls() and guard < 10000:
+                        guard += 1
+                        clock.advance(max(0.0, min(dc.getTime() for dc in clock.getDelayedCalls()) - clock.seconds()))
+            except BaseException as e:  # noqa: BLE001
+                why = f"raised {type(e).__name__}: {e}"
+            camp.evaluations += 1
+            camp.count("whole-tool:verbose=%d" % verbose)
+            camp.count("whole-tool:name:" + ("ascii" if name.isascii() else "utf-8" if _is_utf8(name) else "not-utf-8"))
+            camp.nontrivial.add(("tool", tuple(toks), delay, warp, verbose, name))
+            if why is None:
+                written = b"".join(d for _, d in log[start:] if d is not None)
+                msgs = clientops.parse_c2s(written) or []
+                script_msgs = [m for m in msgs if m[0] in ("KeyEvent", "PointerEvent")]
+                closes = [t for t, d in log if d is None]
+                if failures:
+                    why = f"the command chain failed: {failures[0].value!r}"
+                elif script_msgs != exp:
+                    why = f"{len(exp)} key/pointer messages expected, {len(script_msgs)} written"
+                elif len(closes) != 1:
+                    why = f"the connection was closed {len(closes)} time(s) after the last command finished"
+                elif not f.completed:
+                    why = "the connection was closed but the run is not marked completed"
+                elif abs(closes[0] - float(wait)) > 1e-6:
+                    why = f"the close went out at {closes[0]:.6f}; the pauses and delays of the script end at {float(wait):.6f}"
+                elif log[-1][1] is not None:
+                    why = "bytes were written after the close"
+            if why:
+                camp.oracle_failures.append({"kind": "oracle", "property": "C08",
+                                             "case": {"whole_tool": toks, "delay": delay, "warp": warp, "verbose": verbose, "name": name.hex()},
+                                             "what": f"vncdo {'-' + 'v' * verbose + ' ' if verbose else ''}--delay {delay} --warp {warp} {' '.join(toks)} against a "
+                                                     f"server named {name[:24]!r}: {why}"})
+                return
+    finally:
+        command.factory_connect = saved_connect
+
+
+def _is_utf8(b):
+    try:
+        b.decode()
+        return True
+    except UnicodeDecodeError:
+        return False
 
 
 def replay(payload):
     case = payload["case"]
+    if "whole_tool" in case:
+        return True, "replay: whole-tool case; re-run ./check C08"
     if "tokens" not in case:
         return True, "replay: model-only case; re-run ./check C08"
     tmp = os.path.dirname(next((t for t in case["tokens"] if t.endswith(".png")), "/tmp/x/y"))
